@@ -683,6 +683,10 @@ type panicSite struct {
 // function name + "|" + normalised expression; one line of reason each.
 type justTable map[string]string
 
+// justGuards: machine-checked preconditions of entries of the justification tables, keyed like them. An entry whose
+// guard fails is not applied (the site stays undischarged).
+var justGuards = map[string]func(w *World, fn *ssa.Function, ins ssa.Instruction) bool{}
+
 // BoundsObligations enumerates and tries to discharge every index / slice / type-assert obligation of fns.
 func (w *World) BoundsObligations(fns []*ssa.Function, just justTable) []panicSite {
 	var out []panicSite
@@ -716,8 +720,13 @@ func (w *World) BoundsObligations(fns []*ssa.Function, just justTable) []panicSi
 				if !site.OK {
 					key := shortFn(fn) + "|" + site.Kind + " " + site.Expr
 					if why, ok := just[key]; ok {
-						site.OK = true
-						site.Why = "justified: " + why
+						// a justification that names a guard holds only while the guard is there
+						if g, has := justGuards[key]; has && !g(w, fn, ins) {
+							site.Why += " (the reviewed justification no longer applies: " + why + ")"
+						} else {
+							site.OK = true
+							site.Why = "justified: " + why
+						}
 					}
 				}
 				out = append(out, *site)
@@ -806,7 +815,11 @@ func (bc *boundsCtx) checkSlice(x *ssa.Slice, b *ssa.BasicBlock) *panicSite {
 			return s
 		}
 		// low <= high
-		okLow := x.Low == nil || (lo.hi != posInf && hi.lo != negInf && lo.hi <= hi.lo)
+		okLow := (x.Low == nil && hi.lo != negInf && hi.lo >= 0) || (x.Low != nil && lo.hi != posInf && hi.lo != negInf && lo.hi <= hi.lo)
+		if !okLow && x.Low == nil {
+			s.Why = fmt.Sprintf("high bound [%s,%s] may be negative", fmtB(hi.lo), fmtB(hi.hi))
+			return s
+		}
 		if !okLow {
 			s.Why = fmt.Sprintf("low bound [%s,%s] not known <= high bound [%s,%s]", fmtB(lo.lo), fmtB(lo.hi), fmtB(hi.lo), fmtB(hi.hi))
 			return s
